@@ -199,6 +199,9 @@ def build_value(tree, meas, objs):
         return objs[tree[1]]
     if t == "neg":
         return -build_value(tree[1], meas, objs)
+    if t == "sqrtsq":
+        v = build_value(tree[1], meas, objs)
+        return _q().sqrt(v) * _q().sqrt(v)
     return BIN[t](build_value(tree[1], meas, objs), build_value(tree[2], meas, objs))
 
 
@@ -212,6 +215,8 @@ def coq_expr(tree, defs, pos):
         return coq_expr(defs[tree[1]], defs, pos)
     if t == "neg":
         return "(Neg {})".format(coq_expr(tree[1], defs, pos))
+    if t == "sqrtsq":
+        return "(SqrtSq {})".format(coq_expr(tree[1], defs, pos))
     return "({} {} {})".format(COQ_BIN[t], coq_expr(tree[1], defs, pos), coq_expr(tree[2], defs, pos))
 
 
@@ -227,6 +232,9 @@ def eval_exact(tree, defs, x):
     if t == "neg":
         a = eval_exact(tree[1], defs, x)
         return None if a is None else -a
+    if t == "sqrtsq":
+        a = eval_exact(tree[1], defs, x)
+        return None if a is None or a < 0 else a
     a, b = eval_exact(tree[1], defs, x), eval_exact(tree[2], defs, x)
     if a is None or b is None:
         return None
